@@ -266,8 +266,17 @@ def _env(case, point, states=None):
     return env
 
 
-def _detectable(case, wrt, env0, J1s):
-    """Second-point rule for colored configurations (see C14)."""
+def _thresh(case):
+    """Relative size below which an entry may be missed by the sparsity detection of a dynamic coloring: jax components
+    differentiate exactly (any nonzero is seen); function components compute the sparsity through the framework's
+    approximation code, which uses FORWARD FINITE DIFFERENCES there (System.compute_sparsity falls back to
+    options['derivs_method'] or 'fd' while no coloring exists yet), i.e. round-off noise of about 1e-10 relative."""
+    return 1e-22 if case['kind'] in ('jex', 'jim') else 1e-6
+
+
+def _detectable(case, wrt, env0, J1s, thresh=1e-22):
+    """Rule for colored configurations (see C14): every entry that is nonzero at the judged point must be detectable
+    at the point where the sparsity was computed (the first linearization point, inputs/states perturbed by 1e-9)."""
     envp = {}
     for k, (n, v) in enumerate(sorted(env0.items())):
         v = np.asarray(v, dtype=float)
@@ -281,7 +290,7 @@ def _detectable(case, wrt, env0, J1s):
     gmax = max([float(np.max(np.abs(J[n]), initial=0.0)) for J in Jp for n in wrt] + [0.0])
     for J, J1 in zip(Jp, J1s):
         for n in wrt:
-            if np.any((np.abs(J[n]) <= 1e-22 * gmax) & (np.abs(J1[n]) > 0.0)):
+            if np.any((np.abs(J[n]) <= thresh * gmax) & (np.abs(J1[n]) > 0.0)):
                 return False
     return True
 
@@ -372,7 +381,7 @@ def _check_explicit(case, res, pre, cls, fname):
     refs = [_ref_explicit(case, 0, wrt), _ref_explicit(case, 1, wrt)]
     judge_second = True
     if case.get('coloring') and not case.get('matrix_free'):
-        judge_second = _detectable(case, wrt, _env(case, 0), [r[1] for r in refs[1]])
+        judge_second = _detectable(case, wrt, _env(case, 0), [r[1] for r in refs[1]], _thresh(case))
         if not judge_second:
             cls.append('second_point_sparsity_not_detectable')
     try:
@@ -453,9 +462,10 @@ def _check_implicit(case, res, pre, cls, fname):
             star = {s['name']: np.array(p.get_val('c.' + s['name'])).reshape(s['shape']) for s in case['states']}
             env = _env(case, point, star)
             wrt = ins + sts
-            Rs, Jx, Js, Tmax = [], [], [], 0.0
+            Rs, Jx, Js, Tmax, Jall = [], [], [], 0.0, []
             for o in case['outs']:
                 val, J = X.jac(o['ast'], env, wrt)
+                Jall.append(J)
                 _, T = X.jac(o['ast'], env, wrt, am=True)
                 Rs.append(np.asarray(val).ravel())
                 Jx.append(np.hstack([J[n] for n in ins]))
@@ -483,6 +493,12 @@ def _check_implicit(case, res, pre, cls, fname):
                 res.classes = cls
                 return False
             ref = -np.linalg.solve(Js, Jx)
+            if case.get('coloring') and not case.get('matrix_free') and \
+                    not _detectable(case, wrt, _env(case, 0), Jall, _thresh(case)):
+                # the sparsity was determined at the initial state of the first Newton iteration
+                if 'sparsity_not_detectable_at_first_linearization' not in cls:
+                    cls.append('sparsity_not_detectable_at_first_linearization')
+                continue
             # (3) totals at the converged state
             tot = p.compute_totals(of=['c.' + n for n in sts], wrt=['iv.' + n for n in ins], return_format='array')
             tot = np.asarray(tot, dtype=float)
